@@ -533,3 +533,46 @@ Proof.
     + exfalso. assert (16 ^ maxlen <= 16 ^ (lenN (h :: t) - 1)) by (apply N.pow_le_mono_r; lia). lia.
     + rewrite Hv. f_equal; lia.
 Qed.
+
+(* ---------- 8. Transaction.UnmarshalJSON at the member level ---------- *)
+Definition set_hash (j : tx_json) (h : jfield) : tx_json :=
+  mkTxJson (j_nonce j) (j_price j) (j_gas j) (j_to j) (j_value j) (j_input j) (j_v j) (j_r j) (j_s j) h.
+
+Definition hash_member_ok (h : jfield) : bool :=
+  match h with JAbsent => true | JS s => (match dec_fixed 32 s with Some _ => true | None => false end) | JBad => false end.
+
+(* the value of the "hash" member has no influence on the decoded transaction (hence none on
+   tx_hash / sighash / sender of it): any two well-formed hash members give the same result *)
+Theorem json_hash_member_ignored j h1 h2 :
+  hash_member_ok h1 = true -> hash_member_ok h2 = true ->
+  tx_of_json (set_hash j h1) = tx_of_json (set_hash j h2).
+Proof.
+  intros H1 H2. unfold tx_of_json, set_hash. cbn [j_nonce j_price j_gas j_to j_value j_input j_v j_r j_s j_hash].
+  unfold hash_member_ok in H1, H2.
+  destruct (req_quantity 16 (j_nonce j)), (req_quantity 64 (j_price j)), (req_quantity 16 (j_gas j)),
+    (req_quantity 64 (j_value j)), (req_quantity 64 (j_v j)), (req_quantity 64 (j_r j)), (req_quantity 64 (j_s j));
+    try reflexivity.
+  now rewrite H1, H2.
+Qed.
+
+(* what is accepted has all required members, a valid signature range, and decodes member by member *)
+Theorem json_accepted_fields j t :
+  tx_of_json j = Some t ->
+  req_quantity 16 (j_nonce j) = Some (t_nonce t) /\ req_quantity 64 (j_price j) = Some (t_price t) /\
+  req_quantity 16 (j_gas j) = Some (t_gas t) /\ req_quantity 64 (j_value j) = Some (t_value t) /\
+  req_quantity 64 (j_v j) = Some (t_v t) /\ req_quantity 64 (j_r j) = Some (t_r t) /\
+  req_quantity 64 (j_s j) = Some (t_s t) /\
+  (exists s, j_input j = JS s /\ dec_hexbytes s = Some (t_data t)) /\
+  json_accepts t = true /\ hash_member_ok (j_hash j) = true.
+Proof.
+  unfold tx_of_json, hash_member_ok.
+  destruct (req_quantity 16 (j_nonce j)), (req_quantity 64 (j_price j)), (req_quantity 16 (j_gas j)),
+    (req_quantity 64 (j_value j)), (req_quantity 64 (j_v j)), (req_quantity 64 (j_r j)), (req_quantity 64 (j_s j));
+    try discriminate.
+  destruct (match j_to j with JAbsent => Some None | JS s => option_map Some (dec_fixed 20 s) | JBad => None end) as [to|]; try discriminate.
+  destruct (j_input j) as [|s|] eqn:Ei; try discriminate.
+  destruct (dec_hexbytes s) as [d|] eqn:Ed; try discriminate.
+  destruct (match j_hash j with JAbsent => true | JS s0 => match dec_fixed 32 s0 with Some _ => true | None => false end | JBad => false end) eqn:Eh; try discriminate.
+  destruct (json_accepts _) eqn:Ea; try discriminate.
+  intros E. injection E as <-. cbn. repeat split; try reflexivity; try assumption. eauto.
+Qed.
